@@ -1,7 +1,7 @@
 """C12, multi-queue half - SP, RR, WRR and DRR are work-conserving, non-preemptive, rate-exact and per-flow FIFO.
 `run_family(ctx)` has the return shape of a check's `run(ctx)`; harness/c12.py combines it with the WFQ/VirtualClock half."""
 import random
-from harness.mq import gen_case, evaluate, cases_from_replay
+from harness.mq import gen_group, evaluate, cases_from_replay
 from harness.mqoracle import oracle_c12
 
 ASSUMPTIONS = [
@@ -16,7 +16,7 @@ KINDS = ['sp', 'rr', 'wrr', 'drr']
 
 
 def gen(rng, n):
-    return [gen_case(rng, f'mq{i}', KINDS[i % 4], backlog=rng.random() < 0.4) for i in range(n)]
+    return [gen_group(rng, f'mq{i}', KINDS[i % 4], backlog=rng.random() < 0.4, share=0.1) for i in range(n)]
 
 
 def run_family(ctx):
@@ -24,10 +24,10 @@ def run_family(ctx):
     if ctx.replay:
         cases = [c for c in cases_from_replay(ctx.replay) if c.get('kind') in KINDS]
     else:
-        cases = gen(rng, 2000 if ctx.quick else 40000)
+        cases = gen(rng, 1850 if ctx.quick else 40000)
     return evaluate(
         cases, [oracle_c12],
-        nontrivial=lambda c, r, st, co: co[0] + co[1] > 0,
+        nontrivial=lambda c, r, st, co: co[0] + co[1] > 0, again_n=20,
         rule='seeded random configurations of SP/RR/WRR/DRR (2-6 flows, identity and many-to-one flow2class maps, Monitors with both '
              'settings) x workloads (1-3 sources, same-instant bursts, idle gaps); non-trivial = distinct case with at least one '
              'arrival at the very instant a transmission ends')
